@@ -56,7 +56,7 @@ DEFAULTS = [
     (['expr', 'now()'], None), (['expr', "a'b(\"c\")"], None),
 ]
 TYPES = [['str', 'int'], ['str', 'varchar(255)'], ['str', 'decimal(10, 2)'], ['str', 'int[]'],
-         ['enum', 'public', 'e'], ['enum', 's', 'e2'], ['str', 'character varying'], ['str', 'x.y']]
+         ['enum', 'public', 'e'], ['enum', 's', 'e2'], ['str', 'character varying'], ['str', 'x.y'], ['str', 'x.y(3)'], ['str', 'x.y[]'], ['str', 'E']]
 FLAGS = list(itertools.product([False, True], repeat=4))
 
 
@@ -192,6 +192,8 @@ ENDPOINTS = [
     ([['s', 'c', 'a_id']], [['public', 'b', 'id']]),
     ([['public', 'a', 'id'], ['public', 'a', 'pid']], [['public', 'b', 'a_id'], ['public', 'b', 'a_pid']]),
     ([['s', 'c', 'a_id'], ['s', 'c', 'id']], [['public', 'a', 'id'], ['public', 'a', 'pid']]),
+    ([['s', 'al', 'id']], [['public', 'a', 'id']]),          # s.al: its bare name is the alias of public.a
+    ([['public', 'b', 'id']], [['s', 'al', 'pid']]),
 ]
 
 
@@ -211,7 +213,8 @@ def gen_refs(tier):
 def ref_tables():
     return [A.table('a', [A.col('id'), A.col('pid')], alias='al'),
             A.table('b', [A.col('id'), A.col('a_id'), A.col('a_pid')]),
-            A.table('c', [A.col('id'), A.col('a_id')], schema='s', alias='sc')]
+            A.table('c', [A.col('id'), A.col('a_id')], schema='s', alias='sc'),
+            A.table('al', [A.col('id'), A.col('pid')], schema='s')]
 
 
 def refs_model(refs, base=0):
@@ -280,7 +283,7 @@ def pack_misc(elems, n):
 # ------------------------------------------------------------------------------------------------
 # identifier sweep
 
-IDENTS = ['a1_', 'a b', 'a.b', 'a-b', "a'b", 'a{b}', 'a//b', 'é', '1a', 'a:b', 'a[b]', 'a,b', '#a',
+IDENTS = ['a1_', 'a b', 'a.b', 'a-b', "a'b", 'a{b}', 'a//b', 'é', '1a', 'a:b', 'a[b]', 'a,b', '#a', 'a\\b', 'a\\nb',
           'table', 'enum', 'ref', 'note', 'indexes', 'project', 'tablegroup', 'as', 'pk', 'null', 'unique', 'default', 'true',
           'Note', 'TABLE', 'primary key', 'not null']
 POSITIONS = ['table', 'schema', 'alias', 'column', 'enum', 'enum_schema', 'item', 'group', 'project', 'sticky', 'refname',
@@ -385,7 +388,8 @@ def _decls():
     D['Tsa_inl'] = ('table+ref', A.table('a', [A.col('id'), A.col('b_id')], schema='s'),
                     [A.ref('<', [['s', 'a', 'id']], [['public', 'b', 'id']], inline=True),
                      A.ref('-', [['s', 'a', 'b_id']], [['public', 'a', 'id']], inline=True)])
-    D['Tc_enum'] = ('table', A.table('c', [A.col('k', ['typename', 'e']), A.col('l', ['typename', 's.e']), A.col('m', ['typename', 'public.e'])]))
+    D['Tc_enum'] = ('table', A.table('c', [A.col('k', ['typename', 'e']), A.col('l', ['typename', 's.e']), A.col('m', ['typename', 'public.e']),
+                                           A.col('n', ['typename', 'E']), A.col('o', ['typename', 'S.e']), A.col('q', ['typename', 'x.e'])]))
     D['E'] = ('enum', A.enum('e', ['x', A.item('y', note='yn')]))
     D['Es'] = ('enum', A.enum('e', ['z'], schema='s'))
     D['R_ab'] = ('ref', A.ref('<', [['public', 'a', 'id']], [['public', 'b', 'a_id']], name='r_ab', on_delete='cascade'))
